@@ -188,7 +188,6 @@ func (k Keeper) TallyValidityProofs(ctx sdk.Context, duration time.Duration, rep
 	}
 
 	replicationFactorDec := math.LegacyMustNewDecFromStr(replicationFactor) // TODO: remove with Dec
-	faultValidators := make(map[string]sdk.ValAddress)
 
 	for _, data := range challengingData {
 		// the index key is truncated to seconds: compare the exact deadline
@@ -203,6 +202,8 @@ func (k Keeper) TallyValidityProofs(ctx sdk.Context, duration time.Duration, rep
 			}
 			shardProofCount := make(map[int64]int64)
 			shardProofSubmitted := make(map[int64]map[string]bool)
+			// faults are per item: a fresh set for every item
+			faultValidators := make(map[string]sdk.ValAddress)
 			for _, proof := range proofs {
 				for _, index := range proof.Indices {
 					if shardProofSubmitted[index] == nil {
